@@ -41,7 +41,14 @@ CHECKS.append(chk("C08", "exploration",
     "Round trip against SQLite: generated rows with boundary-seeded values of every storage class in key and non-key position (and omitted columns) are written by two writers and bound identically into a native table; (value bits, typeof) of every cell must be equal after commit, after re-open on a new connection, after merging another writer's version, after delete+vacuum and from a fresh read-only open. TEXT that is not valid UTF-8 may be refused (the table must stay usable) but never altered.",
     "property-based round-trip / differential testing (rapid) against native SQLite"))
 
-for pid in ["C03","C04","C05","C09","C10","C11","C12","C13","C14","C15","C17","C18","C19","C20"]:
+CHECKS.append(chk("C09", "exploration",
+    "Generated multi-writer histories rich in returns to earlier content, with s3db_vacuum at arbitrary points and cutoffs before/at/after write times and year 2100. Per vacuum: rows on the vacuuming connection unchanged and equal to the reference model; fresh read-only and read-write observers equal to the model; every version object left in the bucket is walked with harness-owned decoders and every node link must resolve; every earlier recorded s3db_version (cutoff below its creation time) is re-opened restricted to that version and must give its recorded rows; later statements are checked against the model. Crash points inside vacuum are enumerated under C04.",
+    "stateful property-based testing (rapid): invariants over the bucket (reachability walk) + model + re-read of recorded versions"))
+CHECKS.append(chk("C10", "exploration",
+    "Same histories; after every successful vacuum the entry-level dump of the vacuumed tree must hold no delete marker older than the cutoff and no purge tombstone (size = entries); for the year-2100 cutoff no ancestor version object and no node object that only deleted versions referred to may be left; repeating the same vacuum must leave the bucket byte-identical and the rows unchanged; rows deleted at/after the cutoff keep winning over older late-arriving writes, as the reference model (which forgets purged markers) predicts. Version-side cutoffs other than 'all/none' are not reachable at SQL level because version creation time is the wall clock (see DESIGN.md).",
+    "stateful property-based testing (rapid): post-conditions over entry-level dump and bucket listing + idempotence (metamorphic) + model"))
+
+for pid in ["C03","C04","C05","C11","C12","C13","C14","C15","C17","C18","C19","C20"]:
     NOT_YET[pid] = "check under construction in this session (designed in DESIGN.md section 5); not claimed until its quick tier runs clean on the unchanged tree"
 
 MANIFEST = {
